@@ -220,6 +220,8 @@ class Interp:
             if h is not None:
                 return h(self, args, kw, node)
             return ("app", f"{f[1]}.{f[2]}", tuple(args))
+        if k == "ite":
+            return T_ite(f[1], self.call_value(f[2], args, kw, node, fr), self.call_value(f[3], args, kw, node, fr))
         if k == "class":
             return ("app", "new:" + f[1].name, tuple(args) + tuple(v for _k, v in sorted(kw.items())))
         raise Unsupported(f"call of non-callable value {show(f) if isinstance(f, tuple) else f!r}"
@@ -821,6 +823,8 @@ class Interp:
         h = self.prims.get(name)
         if h is not None:
             return h(self, args, kw, node)
+        if name in ("np.array", "np.asarray") and args and args[0][0] == "tuple":
+            return ("app", "array", (args[0],))
         if name in TRANSPARENT and args:
             return args[0]
         if name.startswith("np."):
@@ -989,13 +993,21 @@ class Interp:
                     return i
                 if len(t[2]) >= 2:
                     return T_add(t[2][0], i)
+            if name == "array" and t[2] and t[2][0][0] == "tuple" and is_num(i):
+                items = t[2][0][1]
+                j = int(i[1])
+                if -len(items) <= j < len(items):
+                    it = items[j]
+                    return ("app", "array", (it,)) if it[0] == "tuple" else it
             if name in POINTWISE or name.startswith("cmp"):
                 new = tuple(
                     self.elem(a, i) if (isinstance(a, tuple) and a and a[0] != "kw" and (a[0] == "lam" or self.axes_of(a))) else a
                     for a in t[2]
                 )
-                from .terms import rebuild_app
-                return rebuild_app(name, new)
+                if new != t[2]:
+                    from .terms import rebuild_app
+                    return rebuild_app(name, new)
+                return ("elem", t, (i,))
         if k == "poly":
             # pointwise ring expression over arrays: index every atom that has axes
             m = {}
@@ -1003,7 +1015,11 @@ class Interp:
                 for a, _p in mono:
                     if a[0] == "lam" or self.axes_of(a):
                         m[a] = self.elem(a, i)
+            if not m:
+                return ("elem", t, (i,))
             return subst(t, m)
+        if k == "tuple" and not is_num(i):
+            return ("elem", t, (i,))
         if k == "ite":
             return T_ite(t[1], self.elem(t[2], i), self.elem(t[3], i))
         return raw_elem(t, i)
@@ -1056,6 +1072,17 @@ class Interp:
         return ("app", name, tuple(args))
 
     def dot(self, x, y):
+        vx, vy = _vector_items(x), _vector_items(y)
+        # hstack of n items against a literal of n scalars: every item is a scalar
+        if vx is None and vy is not None and x[0] == "app" and x[1] == "hstack" and len(x[2]) == len(vy):
+            vx = list(x[2])
+        if vy is None and vx is not None and y[0] == "app" and y[1] == "hstack" and len(y[2]) == len(vx):
+            vy = list(y[2])
+        if vx is not None and vy is not None and len(vx) == len(vy):
+            r = ZERO
+            for a, b in zip(vx, vy):
+                r = T_add(r, T_mul(a, b))
+            return r
         lx = x if x[0] == "lam" else self.eta(x)
         ly = y if y[0] == "lam" else self.eta(y)
         if lx is not None and ly is not None:
@@ -1072,6 +1099,14 @@ class Interp:
         return ("app", "dot", (x, y))
 
     def reduce(self, op, x, axis=NONE):
+        items = _vector_items(x)
+        if items is not None and axis == NONE and op in ("max", "min", "sum", "any", "all"):
+            if op == "sum":
+                r = ZERO
+                for a in items:
+                    r = T_add(r, a)
+                return r
+            return ("app", op + "_of", tuple(sorted(items, key=repr)))  # commutative: canonical order
         if axis == NONE:
             if x[0] == "tuple" and op in ("any", "all"):
                 vals = [self.truth(v) for v in x[1]]
@@ -1272,6 +1307,15 @@ class Interp:
         return subst(body, m), used
 
 
+def _vector_items(t):
+    """Components of a literal vector: array((a, b, ...)) or hstack(a, b, ...) of scalars."""
+    if t[0] == "app" and t[1] == "array" and t[2] and t[2][0][0] == "tuple":
+        items = t[2][0][1]
+        if all(x[0] != "tuple" for x in items):
+            return list(items)
+    return None
+
+
 def _is_term(v) -> bool:
     return isinstance(v, tuple) and bool(v) and isinstance(v[0], str)
 
@@ -1296,8 +1340,11 @@ def _assigned_names(body) -> list[str]:
         for x in ast.walk(st):
             if isinstance(x, ast.Assign):
                 for t in x.targets:
-                    if isinstance(t, ast.Name) and t.id not in out:
-                        out.append(t.id)
+                    base = t
+                    while isinstance(base, ast.Subscript):
+                        base = base.value
+                    if isinstance(base, ast.Name) and base.id not in out:
+                        out.append(base.id)
     return out
 
 
